@@ -78,10 +78,13 @@ Respell(p) ==
                   THEN Step(e, "Not", <<<<"r", 3, "">>>>) ELSE e
    IN UNION {{four(e) : e \in three(c)} : c \in firsts}
 
-HistoriesOf(p) == {e.h : e \in (IF p.mode = "seq" THEN Hist(p.L, p) ELSE Respell(p))}
-All == UNION {{[plan |-> Plans[i].name, ops |-> h] : h \in HistoriesOf(Plans[i])} : i \in DOMAIN Plans}
-ASSUME ndJsonSerialize(IOEnv.OUT, SetToSeq(All))
-ASSUME PrintT(<<"EMITTED", Cardinality(All)>>)
+HistoriesOf(p) == IF p.mode = "seq" THEN Hist(p.L, p) ELSE Respell(p)
+\* vacuity tags computed by the specification: number of rejected calls, and whether a rejected call is repeated
+Rejected(e) == {j \in DOMAIN e.res : e.res[j] = 0}
+All == UNION {{[plan |-> Plans[i].name, ops |-> e.h, nrej |-> Cardinality(Rejected(e)),
+                rrep |-> \E j \in Rejected(e), m \in Rejected(e) : j < m /\ e.h[j] = e.h[m]] :
+               e \in HistoriesOf(Plans[i])} : i \in DOMAIN Plans}
+ASSUME LET A == All IN ndJsonSerialize(IOEnv.OUT, SetToSeq(A)) /\ PrintT(<<"EMITTED", Cardinality(A)>>)
 VARIABLE dummy
 EInit == dummy = 0 /\ Init
 ENext == UNCHANGED <<dummy, vars>>
